@@ -1,5 +1,6 @@
 """C19 value semantics and allocator discipline (DESIGN.md section 5 C19; A5)."""
 import c19_rules
+import quantile_rules
 
 
 def run(facts, tier):
@@ -8,6 +9,7 @@ def run(facts, tier):
         ("special members", c19_rules.special_members, 100, "every own field is handled by every user-written copy/move constructor/assignment, with the right peer; raw pointers are nulled in the moved-from object"),
         ("allocate/deallocate pairing", c19_rules.alloc_pairing, 30, "deallocate sizes equal allocate sizes per owning field / local; deleters use their constructed count"),
         ("assignment safety", c19_rules.assign_safety, 8, "copy assignment reads the source before releasing owned members, or guards self-assignment"),
+        ("cache invalidation", quantile_rules.cache_invalidation, 9, "assignments and mutators invalidate the cached sorted view (a moved/copied-into sketch must not keep a view of its old contents)"),
         ("foreign memory", c19_rules.foreign_memory, 0, "no new/delete/malloc outside the user's allocator (reviewed exception: CPC compressor tables)"),
         ("dangling references", c19_rules.dangling_returns, 50, "no function returns a reference to a local object"),
     ):
